@@ -195,3 +195,22 @@ func (s *Session) KvOp(members []uint64) string {
 		return s.Do("plist", U(n), k, h)
 	}
 }
+
+// StateName returns the lifecycle state of a real node (harness-side observation for generators).
+func (s *Session) StateName(id uint64) string { return stateName(s.R.Node(id).VerifState()) }
+
+// PredOf / SuccOf: current neighbour pointers of a real node (0,false when nil).
+func (s *Session) PredOf(id uint64) (uint64, bool) {
+	p := s.R.Node(id).VerifPred()
+	if p == nil {
+		return 0, false
+	}
+	return p.ID(), true
+}
+func (s *Session) SuccOf(id uint64) (uint64, bool) {
+	l := s.R.Node(id).VerifSuccs()
+	if len(l) == 0 || l[0] == nil {
+		return 0, false
+	}
+	return l[0].ID(), true
+}
